@@ -34,6 +34,7 @@ type ZSpec struct {
 	Rules   []Rule      `json:"rules"`
 	Relays  []RelaySpec `json:"relays"`
 	Expect  string      `json:"expect"` // ban: provable misbehaviour, a PeerStore.Ban call must be recorded | "": nothing required
+	Hangup  string      `json:"hangup"`  // hang up right after delivering an answer / relay whose kind has one of these prefixes (comma separated)
 	Tag     string      `json:"tag"`     // free label that goes into signatures
 	Dials   bool        `json:"dials"`  // the Byzantine peer dials the victim (else the victim dials it)
 }
@@ -284,6 +285,17 @@ func RunByz(sc ByzScenario, slot int) (out *ByzOutcome) {
 			z.Alt = ViewOf(w, htip)
 		}
 		z.Rules = zspec.Rules
+		if zspec.Hangup != "" {
+			prefixes := strings.Split(zspec.Hangup, ",")
+			z.HangupOn = func(kind string) bool {
+				for _, p := range prefixes {
+					if strings.HasPrefix(kind, p) {
+						return true
+					}
+				}
+				return false
+			}
+		}
 		addrRole[ip] = "byz:" + zspec.Name
 		zs = append(zs, z)
 	}
@@ -340,6 +352,31 @@ func RunByz(sc ByzScenario, slot int) (out *ByzOutcome) {
 		wg.Wait()
 	}
 	defer closeAll()
+	// check-then-act: the victim's verdict on submitted blocks is held back until it has noticed that
+	// the peer that served them is gone -- the ban is owed for the misbehaviour, not for the connection
+	v.RCM.gate = func() {
+		for _, z := range zs {
+			z.HangupIfArmed() // the data has arrived (the victim is about to judge it): now hang up
+		}
+		end := time.Now().Add(3 * time.Second)
+		for time.Now().Before(end) {
+			waiting := false
+			for _, z := range zs {
+				if !z.Hung() {
+					continue
+				}
+				for _, p := range v.S.Peers() {
+					if strings.HasPrefix(p.ConnAddr, z.IP+":") && p.Err() == nil {
+						waiting = true
+					}
+				}
+			}
+			if !waiting {
+				return
+			}
+			time.Sleep(5 * time.Millisecond)
+		}
+	}
 	initKnown := make([][]string, len(nodes))
 	initTips := make([]string, len(nodes))
 	for i, n := range nodes {
@@ -637,6 +674,9 @@ func zKind(z ZSpec) string {
 		parts = append(parts, "serve-planted")
 	} else if z.View == "honest-prefix" {
 		parts = append(parts, "prefix")
+	}
+	if z.Hangup != "" {
+		parts = append(parts, "hangup")
 	}
 	if z.Tag != "" {
 		parts = append(parts, z.Tag)
